@@ -68,6 +68,12 @@ def box_class(name='Box'):
     return type(name, (py4hw.Logic,), {})
 
 
+def odd_value(rng, W):
+    """a constructor constant for a W-bit block: too wide, negative, boundary, or ordinary"""
+    return rng.choice([(1 << W) + rng.randint(0, 300), 0x1F0, 300, -1, -(1 << (W - 1)), -rng.randint(2, 300), (1 << W) - 1, 1 << W,
+                       rng.randint(1, (1 << W) - 1), (1 << (W + 3)) | 1])
+
+
 def hier(rng, depth=2):
     """nested containers (no structureName: instance-suffixed module names) holding library blocks that DO share
     structure names (Add4, Reg8E, …), inlinable leaves, and nested boxes; the same block types recur in several boxes"""
@@ -88,7 +94,7 @@ def hier(rng, depth=2):
         bits = []
         n = rng.randint(2, 6)
         for k in range(n):
-            kind = rng.choice(['Add', 'Reg', 'RegE', 'And2', 'Or2', 'Not', 'Mux2', 'Constant', 'Counter', 'Sub', 'Xor2', 'box', 'Equal'])
+            kind = rng.choice(['Add', 'Reg', 'RegE', 'And2', 'Or2', 'Not', 'Mux2', 'Constant', 'Counter', 'Sub', 'Xor2', 'box', 'Equal', 'RegV', 'RegV'])
             a, b = rng.choice(avail), rng.choice(avail)
             nm = f'u{k}'
             if kind == 'box' and lvl < depth:
@@ -110,6 +116,17 @@ def hier(rng, depth=2):
                 py4hw.Sub(box, nm, a, b, r)
             elif kind == 'Reg':
                 py4hw.Reg(box, nm, a, r)
+            elif kind == 'RegV':
+                # constructor constants that do not fit the width / are negative / are in range: the module name carries the value
+                v = odd_value(rng, W)
+                if rng.chance(1, 2):
+                    if not bits:
+                        e = fresh(box, 1, 'e')
+                        py4hw.Bit(box, nm + '_b', b, 0, e)
+                        bits.append(e)
+                    py4hw.Reg(box, nm, a, r, reset=bits[0], reset_value=v)
+                else:
+                    py4hw.Reg(box, nm, a, r, reset_value=v)
             elif kind == 'RegE':
                 if not bits:
                     e = fresh(box, 1, 'e')
@@ -127,7 +144,7 @@ def hier(rng, depth=2):
                     bits.append(e)
                 py4hw.Mux2(box, nm, bits[0], a, b, r)
             elif kind == 'Constant':
-                py4hw.Constant(box, nm, rng.randint(0, (1 << W) - 1), r)
+                py4hw.Constant(box, nm, rng.randint(0, (1 << W) - 1) if rng.chance(1, 2) else odd_value(rng, W), r)
             elif kind == 'Counter':
                 rs, inc = fresh(box, 1, 'e'), fresh(box, 1, 'e')
                 py4hw.Bit(box, nm + '_r', a, 0, rs)
@@ -155,6 +172,8 @@ def hier(rng, depth=2):
         top.addOut(f'out{k}', w)
         outs.append(w)
     fill(top, tin, outs, 1)
+    # every hierarchy holds at least one block whose constructor constant does not fit its width (too wide or negative)
+    py4hw.Reg(top, 'rv', tin[0], fresh(top), reset_value=rng.choice([(1 << W) + rng.randint(1, 300), 0x1F0 + (1 << W), -1, -rng.randint(2, 300)]))
     return dict(hw=hw, tops=tops, inputs=inputs, desc=dict(hier_W=W, depth=depth, objs=len(all_objs(hw))))
 
 
@@ -567,16 +586,65 @@ def _ca_peak(py4hw, top, a, r):
     return Peak(top, 'stage', a, r)
 
 
+# ------------------------------------------------------------------------------------------------
+# local variables named like Verilog / SystemVerilog reserved words (legal Python identifiers) or like generated identifiers
+def _kw_bit(py4hw, top, a, r):
+    class Parity(py4hw.Logic):
+        def __init__(self, parent, name, a, r):
+            super().__init__(parent, name)
+            self.a = self.addIn('a', a)
+            self.r = self.addOut('r', r)
+            self.count = 0
+
+        def clock(self):
+            bit = self.a.get() & 1
+            self.count = self.count + bit
+            self.r.prepare(self.count)
+    return Parity(top, 'stage', a, r)
+
+
+def _kw_time(py4hw, top, a, r):
+    class Mix(py4hw.Logic):
+        def __init__(self, parent, name, a, r):
+            super().__init__(parent, name)
+            self.a = self.addIn('a', a)
+            self.r = self.addOut('r', r)
+
+        def propagate(self):
+            time = self.a.get() >> 1
+            reg = time & 3
+            self.r.put(time ^ reg)
+    return Mix(top, 'stage', a, r)
+
+
+def _kw_new(py4hw, top, a, r):
+    class Track(py4hw.Logic):
+        def __init__(self, parent, name, a, r):
+            super().__init__(parent, name)
+            self.a = self.addIn('a', a)
+            self.r = self.addOut('r', r)
+            self.old = 0
+
+        def clock(self):
+            new = self.a.get()
+            bit_0 = new ^ self.old
+            self.old = new
+            self.r.prepare(bit_0)
+    return Track(top, 'stage', a, r)
+
+
+KWLOCALS = {'kwbit': _kw_bit, 'kwtime': _kw_time, 'kwnew': _kw_new}
 CLOCKATTR = {'chg': _ca_chg, 'peak': _ca_peak}
 SAMENAME = {'up': _stage_up, 'down': _stage_down, 'up2': _stage_up2, 'acc': _stage_acc, 'xor': _stage_xor}
 # variants that must give the SAME text (identical source, different class objects): the control
 SAMENAME_EQUAL = [('up', 'up2')]
 IDENTS = {'saturate': _id_saturate, 'window': _id_window, 'hold': _id_hold, 'scale': _id_scale, 'ramp': _id_ramp, 'mask': _id_mask}
 FAMILIES = {'same-name classes': (SAMENAME, SAMENAME_EQUAL), 'shared identifier names': (IDENTS, []),
-            'attributes created by clock()': (CLOCKATTR, [])}
+            'attributes created by clock()': (CLOCKATTR, []), 'keyword-like local names': (KWLOCALS, [])}
 VARIANTS = dict(SAMENAME)
 VARIANTS.update(IDENTS)
 VARIANTS.update(CLOCKATTR)
+VARIANTS.update(KWLOCALS)
 
 
 def samename(variant, W=8):
